@@ -103,11 +103,6 @@ theorem undo_replace (lines : List Str) (i : Nat) (l l' : Str) (h : lines[i]? = 
 theorem undo_insert (lines : List Str) (i : Nat) (l : Str) :
     (lines.insertIdx i l).eraseIdx i = lines := by simp
 
-private theorem set_get (lines : List Str) (i : Nat) (l l' : Str) (h : lines[i]? = some l) :
-    (lines.set i l')[i]? = some l' := by
-  have := (List.getElem?_eq_some_iff.mp h).1
-  simp [this]
-
 /-- whitespace: appending a blank to a line that has a non-blank character is reported at that line -/
 theorem seeded_trailing_whitespace (lines : List Str) (i : Nat) (l : Str) (c : Char)
     (h : lines[i]? = some l) (hc : isSpace c = true) (hl : ∃ d ∈ l, isSpace d = false) :
